@@ -85,6 +85,14 @@ def smem(cq, ct):
     return {"name": "S-layout:memory of values vs the image their schema prescribes", Q: ["smem", "--cases", str(cq)], T: ["smem", "--cases", str(ct), "--size", "30"], "seeds_t": 3}
 
 
+def abivals(cq, ct):
+    return {"name": "S-abi:operations through a connection vs direct calls", Q: ["abivals", "--cases", str(cq)], T: ["abivals", "--cases", str(ct)], "seeds_t": 4}
+
+
+def abiconc(cq, ct):
+    return {"name": "S-abi:concurrent creation and use", Q: ["abiconc", "--cases", str(cq)], T: ["abiconc", "--cases", str(ct)], "seeds_t": 4}
+
+
 PROPS = {
     "C01": {
         "module": "Sfv.Props.C01",
@@ -110,6 +118,18 @@ PROPS = {
         "tables": ["tables_prim_widths"],
         "suites": [xver(6, 40), codec(3, 15, filt="Fam"), codec(3, 15, filt="Ver"), PACKED],
         "oracle": ["C18"],
+    },
+    "C09": {
+        "module": "Sfv.Props.C09",
+        "tables": [],
+        "suites": [abivals(40, 300), abicall(4, 20)],
+        "oracle": ["C09"],
+    },
+    "C16": {
+        "module": "Sfv.Props.C16",
+        "tables": [],
+        "suites": [abiconc(24, 200), abivals(10, 40)],
+        "oracle": ["C16"],
     },
     "C11": {
         "module": "Sfv.Props.C11",
